@@ -84,6 +84,13 @@ func c20Trees(otherID string, explicit *[2]bool) []*c20Tree {
 			&c20Tree{name: "siblings", files: map[string]string{
 				"workflow.yaml": strings.Replace(c20Loop("a.yaml", defaultInputSchema, "$.input.n", otherID, ""), "outputs:\n", "  l2:\n    kind: foreach\n    workflow: b.yaml\n    items:\n      - v: !expr $.input.n\n    wait_for: !expr $.steps.l.outputs\noutputs:\n", 1),
 				"a.yaml":        c20Loop("a2.yaml", sub, "$.input.v", "", ""), "b.yaml": c20Loop("b2.yaml", sub, "$.input.v", "", ""), "a2.yaml": leaf, "b2.yaml": leaf}},
+			// one sub-workflow used at two nesting levels
+			&c20Tree{name: "sharedlevels", files: map[string]string{
+				"workflow.yaml": strings.Replace(c20Loop("mid.yaml", defaultInputSchema, "$.input.n", otherID, ""), "outputs:\n", "  l2:\n    kind: foreach\n    workflow: leaf.yaml\n    items:\n      - v: !expr $.input.n\n    wait_for: !expr $.steps.l.outputs\noutputs:\n", 1),
+				"mid.yaml":      c20Loop("leaf.yaml", sub, "$.input.v", "", ""), "leaf.yaml": leaf}},
+			&c20Tree{name: "sharedlevels2", files: map[string]string{
+				"workflow.yaml": strings.Replace(c20Loop("a.yaml", defaultInputSchema, "$.input.n", otherID, ""), "outputs:\n", "  l2:\n    kind: foreach\n    workflow: z.yaml\n    items:\n      - v: !expr $.input.n\n    wait_for: !expr $.steps.l.outputs\noutputs:\n", 1),
+				"z.yaml":        c20Loop("m.yaml", sub, "$.input.v", "", ""), "m.yaml": c20Loop("a.yaml", sub, "$.input.v", "", ""), "a.yaml": leaf}},
 			&c20Tree{name: "subdir", files: map[string]string{"workflow.yaml": c20Loop("sub/leaf.yaml", defaultInputSchema, "$.input.n", otherID, ""), "sub/leaf.yaml": leaf}},
 		)
 	}
@@ -269,14 +276,14 @@ func c20Unit(otherID string, explicit *[2]bool, tag string) *Unit {
 		res.Outcomes = len(outcomes)
 		res.Nontrivial = len(outcomes)
 		res.Signatures = res.Execs
-		res.Sample = map[string]any{"output_declaration": tag, "trees": []string{"depth0", "depth1", "depth2", "depth3", "diamond", "siblings", "subdir"}, "entry_points": []string{"RunWorkflow", "Parse+Run", "Prepare+Execute"}}
+		res.Sample = map[string]any{"output_declaration": tag, "trees": []string{"depth0", "depth1", "depth2", "depth3", "diamond", "siblings", "sharedlevels", "sharedlevels2", "subdir"}, "entry_points": []string{"RunWorkflow", "Parse+Run", "Prepare+Execute"}}
 		return res
 	}}
 }
 
 func init() {
 	register(&PropCheck{ID: "C20", Level: "exploration",
-		Rule:        "workflow trees on disk (nesting depth 0-3, diamond-shared and sibling sub-workflows, sub-directory) x output declarations (ids success / error / failure / a-b_c; inferred, explicit error:true, explicit error:false) x leaf outcome (each declared output chosen) x context directory absolute / relative x working directory in {context, parent, unrelated} x reversed file-map iteration, through RunWorkflow and Parse+Run, compared with Prepare+Execute on the same text; error flag checked against the declaration; a case is non-trivial per distinct result",
+		Rule:        "workflow trees on disk (nesting depth 0-3, diamond-shared, sibling and level-crossing shared sub-workflows, sub-directory) x output declarations (ids success / error / failure / a-b_c; inferred, explicit error:true, explicit error:false) x leaf outcome (each declared output chosen) x context directory absolute / relative x working directory in {context, parent, unrelated} x reversed file-map iteration, through RunWorkflow and Parse+Run, compared with Prepare+Execute on the same text; error flag checked against the declaration; a case is non-trivial per distinct result",
 		Assumptions: []string{"the arcaflow binary's exit code mapping is not exercised (package main; its registry cannot be replaced without changing the code under test)", "runs use the default schedule of the controlled runtime (programs have a unique meaning)", "scripted deployer registered by reassigning engine.DefaultDeployerRegistry"},
 		Budget:      budget(170*time.Second, 20*time.Minute),
 		Units: func(tier string) []*Unit {
